@@ -356,6 +356,21 @@ def pair(ctx: Any) -> List[Ob]:
                 return True
         return False
 
+    # the heap changes only through the heap operations (push, pop of the minimum) and the wholesale clear on cancel: an entry
+    # is never fished out by value -- entries compare by due time alone, so `remove(entry)` takes out the FIRST entry that is
+    # due at the same millisecond (another record, which then loses its refresh queries), and any in-place edit breaks the order
+    for m_ in sorted(qs.methods.values(), key=lambda x: x.name):
+        mm = m_.params[0] if m_.params else 'self'
+        for x in walk_local_ordered(m_.node):
+            bad_mut = None
+            if isinstance(x, ast.Call) and isinstance(x.func, ast.Attribute) and self_attr(x.func.value, mm) == '_query_heap' and x.func.attr in ('remove', 'pop', 'insert', 'append', 'extend', 'sort', 'reverse', '__delitem__', '__setitem__'):
+                bad_mut = x
+            if isinstance(x, ast.Delete) and any(isinstance(t, ast.Subscript) and self_attr(t.value, mm) == '_query_heap' for t in x.targets):
+                bad_mut = x
+            if isinstance(x, ast.Assign) and any(isinstance(t, ast.Subscript) and self_attr(t.value, mm) == '_query_heap' for t in x.targets):
+                bad_mut = x
+            if bad_mut is not None:
+                obs.append(ob(R, m_, bad_mut, 'the query heap is changed only by heappush / heappop (and cleared on cancel)', False, 'a removal or edit by value or position: entries compare equal when they are due at the same millisecond, so another record\'s entry can be the one that goes'))
     wipers = [m_ for m_ in qs.methods.values() if discards(m_)]
     if not wipers:
         raise AnalysisError('anchor vanished: where the scheduler discards its heap and map (stop)')
